@@ -69,6 +69,16 @@ func catalogue() []fault {
 		for _, c := range faultCodes {
 			out = append(out, fault{"recv-unused", 0, c, 0, after})
 		}
+		// the same over the real gRPC stack: the handler ends the RPC with a status, or the
+		// client's transport is cut under the RPC, after 0..4 answers
+		for _, burst := range []int{1, 6, 20} {
+			for at := 0; at <= 4; at++ {
+				for _, c := range faultCodes {
+					out = append(out, fault{"grpc-status", at, c, burst, after})
+				}
+				out = append(out, fault{"grpc-kill", at, codes.Unavailable, burst, after})
+			}
+		}
 	}
 	return out
 }
@@ -87,7 +97,7 @@ func TestCheck(t *testing.T) {
 		child.Fold(run, fmt.Sprintf("child-%d", b), o, false)
 	})
 	run.Assume("after a Send failure the stream's status is what Recv returns (the gRPC contract); a clean end of stream (EOF / status OK) is exercised for hangs and leaks only - no error is demanded there")
-	run.Finish("fault enumeration over a scripted stub stream: the Send with index 1..6 fails, or the stream fails on the receive side after 0..5 responses, for each of 8 gRPC status codes (plus clean EOF after 0..3 responses; a Send failure whose status reaches the receive side 150 ms later; a receive-side failure when everything has been answered and the client had converged; a failure on a stream nothing was ever sent on), while the application queues a burst of 1/3/6/20 further requests; then Close, or Reset + Connect on a fresh stream + a further exchange that must converge. Oracles (each wait under a watchdog, a firing counts only with a proven permanent block): every Q returns, Done is signalled, AwaitConverged returns the recorded error (never nil, never the context's), Close/Reset return and the receiver is not inside Recv on the failed stream when they do, no goroutine with a frame of the client package survives, and after Reset the client has no stale pending operations, results or errors. Repeated per tier with different interleaving (quick: 4 repetitions, thorough: 40). Distinct = by fault case", 100, false)
+	run.Finish("fault enumeration over a scripted stub stream: the Send with index 1..6 fails, or the stream fails on the receive side after 0..5 responses, for each of 8 gRPC status codes (plus clean EOF after 0..3 responses; a Send failure whose status reaches the receive side 150 ms later; a receive-side failure when everything has been answered and the client had converged; a failure on a stream nothing was ever sent on), while the application queues a burst of 1/3/6/20 further requests; then Close, or Reset + Connect on a fresh stream + a further exchange that must converge. Oracles (each wait under a watchdog, a firing counts only with a proven permanent block): every Q returns, Done is signalled, AwaitConverged returns the recorded error (never nil, never the context's), Close/Reset return and the receiver is not inside Recv on the failed stream when they do, no goroutine with a frame of the client package survives, and after Reset the client has no stale pending operations, results or errors. The same faults are also injected over the real gRPC stack (in-memory transport): the handler ends the RPC with each of the 8 status codes, or the client's transport is cut under the RPC, after 0..4 answers; there the recorded receive error must carry the status the handler returned. Repeated per tier with different interleaving (quick: 4 repetitions, thorough: 40). Distinct = by fault case", 100, false)
 }
 
 func nhReq(id uint64) *spb.ModifyRequest {
@@ -141,6 +151,10 @@ type stepper struct {
 }
 
 func runCase(col sink, st *stepper, caseID string, f fault, rep int) {
+	if strings.HasPrefix(f.side, "grpc-") {
+		runGRPCCase(col, st, caseID, f, rep)
+		return
+	}
 	problem := func(sig, txt string) {
 		col.Violation(caseID, sig, txt, map[string]any{"fault": f.String()})
 	}
